@@ -5,8 +5,9 @@
    Reader (getAllSegmentsInQuery / getAllSegmentsInAggs): snapshot of the unrotated list, then
    snapshot of the rotated list, then every request is resolved and read (an unrotated request
    whose segment has meanwhile left the unrotated info is read from the rotated files;
-   the searcher keeps processedBlocks per segment key, the stats path drops a rotated request
-   whose key is also in the unrotated snapshot — fix 08e84b8). *)
+   the searcher keeps processedBlocks per (segment key, block number) — modelled below as it is
+   coded, batch by batch —, the stats path drops a rotated request whose key is also in the
+   unrotated snapshot — fix 08e84b8; the group-by path does neither). *)
 From SigM Require Import Base.
 Open Scope nat_scope.
 
@@ -37,25 +38,104 @@ Definition updr (f : nat -> rst) (r : nat) (x : rst) : nat -> rst := fun t => if
 Definition in_unrot (x : seg) : bool := match ph x with Open | Both => true | _ => false end.
 Definition in_rot (x : seg) : bool := match ph x with Both | Rotated => true | _ => false end.
 
+(* ------------------------------------------------------------------------------------------
+   The searcher's block list (pkg/segment/query/processor/searcher.go).
+   A record query turns EVERY request of its plan into blocks (segment key, block number): a segment
+   that the planner saw in both lists contributes every block twice.  Searcher.getBlocks is called
+   once or several times (requests that are only partly inside the current time cut-off are submitted
+   again); each call passes its batch through getFilteredBlocks, which skips a block whose
+   (segment key, block number) is in processedBlocks and MARKS a block at the moment it accepts it.
+   The accepted blocks are sorted (time-ordered searcher) or left as they are (any-order searcher of
+   a pipeline split into GOMAXPROCS parallel chains) and handed out in groups (fetchRRCs: in any-order
+   mode the next GOMAXPROCS blocks per Fetch); the blocks of one group are put into the block map of a
+   segment search request (getSSRs), i.e. inside ONE group a repeated block is searched once. *)
+Definition blk := (nat * nat)%type.
+Definition blk_eqb (x y : blk) : bool := Nat.eqb (fst x) (fst y) && Nat.eqb (snd x) (snd y).
+Fixpoint bmem (x : blk) (l : list blk) : bool :=
+  match l with [] => false | y :: r => blk_eqb x y || bmem x r end.
+
+(* getFilteredBlocks as it is: one pass, a block is marked when it is accepted.
+   Result: (processedBlocks afterwards, accepted blocks in order). *)
+Fixpoint fb_mark (proc batch : list blk) : list blk * list blk :=
+  match batch with
+  | [] => (proc, [])
+  | b :: r => if bmem b proc then fb_mark proc r
+              else let '(p, out) := fb_mark (b :: proc) r in (p, b :: out)
+  end.
+(* the variant "filter against processedBlocks first, record the accepted blocks afterwards":
+   blocks handed out by EARLIER batches are skipped, two copies inside one batch are both accepted *)
+Definition fb_two_pass (proc batch : list blk) : list blk * list blk :=
+  let out := filter (fun b => negb (bmem b proc)) batch in (out ++ proc, out).
+Definition filter_batch (in_batch : bool) := if in_batch then fb_mark else fb_two_pass.
+
+Fixpoint searcher_filter (in_batch : bool) (proc : list blk) (batches : list (list blk)) : list blk :=
+  match batches with
+  | [] => []
+  | b :: r => let '(p, out) := filter_batch in_batch proc b in out ++ searcher_filter in_batch p r
+  end.
+
+(* one group of blocks read through the block map of a segment search request *)
+Fixpoint bdedup (l : list blk) : list blk :=
+  match l with [] => [] | x :: r => if bmem x r then bdedup r else x :: bdedup r end.
+
+(* batching: how the raw block list reaches getBlocks (any list of batches);
+   grouping: how the accepted blocks are cut into groups (after any re-ordering) *)
+Definition searcher_answer (in_batch : bool) (batching grouping : list blk -> list (list blk)) (raw : list blk) : list blk :=
+  flat_map bdedup (grouping (searcher_filter in_batch [] (batching raw))).
+
+(* the any-order searcher: everything in one batch, groups of P = GOMAXPROCS blocks *)
+Definition one_batch (l : list blk) : list (list blk) := [l].
+Fixpoint chunks_fuel (fuel P : nat) (l : list blk) : list (list blk) :=
+  match fuel with
+  | 0 => []
+  | S k => match l with [] => [] | _ => firstn P l :: chunks_fuel k P (skipn P l) end
+  end.
+Definition chunks (P : nat) (l : list blk) : list (list blk) := chunks_fuel (length l) (Nat.max 1 P) l.
+
+(* the three routes a query takes through the searcher *)
+Inductive qkind :=
+| QRecords    (* raw-record search (`*`, and everything in front of a later stats command) *)
+| QStats      (* first command is a statistics command without by-clause: segment statistics *)
+| QGroupBy.   (* first command is a statistics command with a by-clause: group-by buckets *)
+
 Section WithUniverse.
   Variable nseg : nat.                      (* segment ids 0 .. nseg-1 *)
   Variable stats_dedup : bool.              (* false = the statistics path before fix 08e84b8 *)
+  Variable dedup_in_batch : bool.           (* false = getFilteredBlocks recording the batch after its loop *)
+  Variable batching grouping : list blk -> list (list blk).
 
   Definition blocks_of (f : nat -> seg) (s : nat) : list (nat * nat) := map (pair s) (seq 0 (nb (f s))).
 
   Fixpoint mem (s : nat) (l : list nat) : bool :=
     match l with [] => false | x :: r => Nat.eqb x s || mem s r end.
 
-  (* record query: every request is read; blocks already processed for a segment key are skipped *)
-  Definition resolve_records (f : nat -> seg) (su sr : list nat) : list (nat * nat) :=
+  (* SPECIFICATION of the record query (what the searcher has to achieve): every request is read;
+     blocks already processed for a segment key are skipped *)
+  Definition resolve_records_spec (f : nat -> seg) (su sr : list nat) : list (nat * nat) :=
     flat_map (blocks_of f) su ++ flat_map (blocks_of f) (filter (fun s => negb (mem s su)) sr).
+
+  (* record query as the searcher runs it: the plan lists the blocks of every unrotated request and of
+     every rotated request (a segment in both lists twice); the searcher de-duplicates *)
+  Definition raw_blocks (f : nat -> seg) (su sr : list nat) : list blk :=
+    flat_map (blocks_of f) su ++ flat_map (blocks_of f) sr.
+  Definition resolve_records (f : nat -> seg) (su sr : list nat) : list (nat * nat) :=
+    searcher_answer dedup_in_batch batching grouping (raw_blocks f su sr).
 
   (* statistics query: every request contributes its whole segment once per request *)
   Definition resolve_stats (f : nat -> seg) (su sr : list nat) : list (nat * nat) :=
     flat_map (blocks_of f) su ++
     flat_map (blocks_of f) (if stats_dedup then filter (fun s => negb (mem s su)) sr else sr).
 
-  Variable is_stats : nat -> bool.          (* which readers are statistics queries *)
+  (* group-by statistics as a first command (applyFopAllRequests): an unrotated request is read from the
+     unrotated info as it is AT THAT MOMENT (a segment that has left it yields nothing, there is no
+     re-test as in GetSSRsFromQSR / applyAggOpOnSegments), a rotated request is always read, and a
+     segment that is in both snapshots is not de-duplicated *)
+  Definition resolve_groupby (f : nat -> seg) (su sr : list nat) : list (nat * nat) :=
+    flat_map (blocks_of f) (filter (fun s => in_unrot (f s)) su) ++ flat_map (blocks_of f) sr.
+
+  Variable kind_of : nat -> qkind.          (* which route reader r takes *)
+  Definition resolve_kind (k : qkind) :=
+    match k with QRecords => resolve_records | QStats => resolve_stats | QGroupBy => resolve_groupby end.
 
   Definition step (y : sys) (e : ev) : sys :=
     match e with
@@ -100,7 +180,7 @@ Section WithUniverse.
         match stage (rds y r) with
         | RSnapR => {| segs := segs y;
                        rds := updr (rds y) r {| stage := RDone; snap_u := snap_u (rds y r); snap_r := snap_r (rds y r);
-                                                result := (if is_stats r then resolve_stats else resolve_records)
+                                                result := resolve_kind (kind_of r)
                                                             (segs y) (snap_u (rds y r)) (snap_r (rds y r)) |} |}
         | _ => y
         end
